@@ -283,10 +283,47 @@ theorem iit_index_source_establishes (es : List GenSrcIit.RCell) (ml : Nat) (hn 
   · have : es'.length = (GenSrcIit.cells es').length := (GenSrcIit.length_cells es').symm
     rw [this, h2]; exact g4
 
+open RbV.Iit in
+/-- **`find_into` as written in the source = the mirror model's search** (`iit_find_source_eq_model`): on an indexed tree
+with `max_level ≤ 61` the translated function never panics (the 64-slot stack never overflows, no index is out of range,
+no shift or addition overflows, the fuel of the `while t > 0` loop suffices), clears the buffer it is given and fills it
+with exactly what the model's `findLoop` returns, in the same order; on an un-indexed tree it panics -/
+theorem iit_find_source_eq_model (es : List GenSrcIit.RCell) (K : Nat) (hK : K ≤ 61) (q : Query)
+    (res0 : List GenSrcIit.REntry) :
+    (∃ R, Gen.SrcIit.findInto Iit.max3 es K true (q.lo, q.hi) res0 = Rs.Res.ok R ∧
+      R.map GenSrcIit.toEntry = findLoop (GenSrcIit.cells es) es.length q [⟨K, (1 <<< K) - 1, false⟩]) ∧
+    Gen.SrcIit.findInto Iit.max3 es K false (q.lo, q.hi) res0 = Rs.Res.panic :=
+  ⟨GenSrcIit.findInto_eq_model es K hK q res0, GenSrcIit.findInto_not_indexed es K _ res0⟩
+
+open RbV.Iit in
+/-- **The translated pair answers exactly the overlapping entries, for every n**: run the *translated* `index_core` on
+entries sorted by start (what `index()` hands it after `sort_by_key`), then the *translated* `find_into` with any query and
+any (dirty) result buffer: neither panics, and the buffer ends up holding exactly the stored entries that overlap the
+query, in index order — fewer than `2^62` entries, `max_level ≤ 61` before (0 for a new tree) -/
+theorem iit_source_pair_answers_overlaps (es : List GenSrcIit.RCell) (ml : Nat) (hml : ml ≤ 61) (hn : es.length < 2 ^ 62)
+    (hs : SortedC (GenSrcIit.cells es)) (q : Query) (res0 : List GenSrcIit.REntry) :
+    ∃ es' ml' R, Gen.SrcIit.indexCore Iit.max3 es ml = Rs.Res.ok (es', ml') ∧
+      Gen.SrcIit.findInto Iit.max3 es' ml' true (q.lo, q.hi) res0 = Rs.Res.ok R ∧
+      R.map GenSrcIit.toEntry = expected ((GenSrcIit.cells es).map (·.e)) q := by
+  obtain ⟨es', h1, h2⟩ := iit_index_source_eq_model es ml hn
+  obtain ⟨g1, g2, g3, g4⟩ := iit_index_establishes (GenSrcIit.cells es) ml hs
+  have hlev := GenSrcIit.indexCore_level_le (GenSrcIit.cells es) ml hml (by rw [GenSrcIit.length_cells]; exact hn)
+  obtain ⟨R, r1, r2⟩ := GenSrcIit.findInto_eq_model es' _ hlev q res0
+  refine ⟨es', _, R, h1, r1, ?_⟩
+  rw [r2, ← GenSrcIit.length_cells es', h2, iit_find_correct _ _ q g2 g3 g4, g1]
+
 -- the translated `index_core` on five cells (n not a power of two, stale `max` fields): new `max` fields and level
 example : Gen.SrcIit.indexCore Iit.max3
     [((0 : Int), ((0 : Int), (2 : Int)), (0 : Int)), (1, (1, 3), 99), (2, (2, 3), 0), (3, (2, 4), -5), (4, (3, 50), 0)] 0
     = Rs.Res.ok ([(0, (0, 2), 2), (1, (1, 3), 3), (2, (2, 3), 3), (3, (2, 4), 50), (4, (3, 50), 50)], 2) := by
   decide +kernel
+
+-- … and the translated `find_into` on the result, with a dirty buffer: the query [49, 50) meets only the last entry
+example : Gen.SrcIit.findInto Iit.max3
+    [((0 : Int), ((0 : Int), (2 : Int)), (2 : Int)), (1, (1, 3), 3), (2, (2, 3), 3), (3, (2, 4), 50), (4, (3, 50), 50)] 2 true
+    (49, 50) [((7, 8), 9)] = Rs.Res.ok [((3, 50), 4)] := by decide +kernel
+example : Gen.SrcIit.findInto Iit.max3
+    [((0 : Int), ((0 : Int), (2 : Int)), (2 : Int)), (1, (1, 3), 3), (2, (2, 3), 3), (3, (2, 4), 50), (4, (3, 50), 50)] 2 true
+    (2, 3) [] = Rs.Res.ok [((1, 3), 1), ((2, 3), 2), ((2, 4), 3)] := by decide +kernel
 
 end RbV.Thm.C07
